@@ -11,7 +11,7 @@ def c22(tier, seed):
         J(MPMC, "VerifB22aFIFO", budget=2 if q else 4, max_paths=20000 if q else 400000),
         J(MPMC, "VerifB22aClose", budget=2 if q else 4, max_paths=20000 if q else 400000),
         J(MPMC, "VerifB22aSendRecv", budget=1 if q else 2, senders=2, max_paths=20000 if q else 400000),
-        J(MPMC, "VerifB22aFullQueue", budget=0 if q else 1, max_paths=20000 if q else 400000, job_timeout_s=900 if q else 3000),
+        J(MPMC, "VerifB22aFullQueue", budget=0, max_paths=20000 if q else 400000, job_timeout_s=900 if q else 3000),  # budget 1 exhausts 400000 paths: not claimed
         J(MPSC, "VerifB22cAccumulator", producers=2, budget=1 if q else 2, max_paths=20000 if q else 400000, job_timeout_s=900 if q else 3000),
         J(MPSC, "VerifB22cCloseRace", budget=1 if q else 2, max_paths=20000 if q else 400000, job_timeout_s=900 if q else 3000),
         J(MPSC, "VerifB22cSendAfterClose", budget=2 if q else 3, max_paths=20000 if q else 400000),
@@ -59,6 +59,7 @@ _SCHED_ASSUME = [
 SPEC = {
     "C21": {
         "jobs": c21,
+        "technique": "bounded symbolic execution of go/ssa into SMT (z3) with thread schedules as forked solver decision variables (context-bounded: preemption budget over verifhook / atomic-operation scheduling points); counterexample schedules replayed on the compiled code through the hooks or by stress",
         "level_text": "bounded exploration of symbolic schedules of the real cycle-teardown code (track.StatusPool, track.Reporter, worker.Membership, worker.CycleGroup.Join): per cycle member a MAIN thread (forward input with Inc-before-enqueue, SignalReady, WaitForAllReady, leader-first ordered clean-up through Sleep/Wake) and a CYCLIC thread (drain inbox, optionally forward, Dec) mirror Basic.Execute; the thread to run at each scheduling point is a forked solver variable. Obligations on every schedule: WaitForAllReady returns only when all members signalled and no message is in flight; nothing is enqueued on a cleaned-up inbox; every inbox is empty at the end; every thread finishes (no lost wake-up). Counterexample schedules replay on the real code through verifhook points. (B21b) the real Core.ProcessSender (processing goroutines, hand-over channel, deferred drain) on a harness sender: per message the processor succeeds / fails / fails with a cancellation error / panics, the request is cancelled before a solver-chosen delivery; afterwards every delivered message has been released exactly once and the sender is drained - a message that is never released keeps its cycle group's in-flight count above zero for ever. (B21c) the real (*Basic).Execute of two Basic workers that form a cycle, wired the way pipeline.Build / createWorker wire them: the weighted graph of `org#member: [user, team#member]` / `team#member: [user, org#member]` is built with the language module's own AddNode/AddEdge/AssignWeights (the member edges carry the real tuple-cycle mark), one CycleGroup (real Join / Membership / track.StatusPool), real mediums through DefaultMediumFunc (QueueMedium on the cyclical edges, ChannelMedium for the inputs and the output), real Core.Broadcast / send / ProcessSender / Cleanup / MessagePool, createWorker's MsgFunc closure (Inc before enqueue on a cyclical edge, Dec chained into the Done callback) reproduced statement by statement, a harness Interpreter (finite successor relation on 4 values; its result rows ignore ctx like an already fetched datastore page) and the pipeline consumer (Pipeline.Recv/Close: read output, cancel on reported error, cancel + drain + wait). Forked per path: which non-cyclical inputs carry a message (and which value), the event (k-th Interpret call / k-th row handed out) at which the request is cancelled, the event at which the processing goroutine is held until the other goroutines have run as far as they can, the Interpret call that panics, how many messages the consumer reads before it closes the pipeline. Obligations on every path: both Execute calls return and no goroutine stays blocked; no runtime panic (send on a closed medium) and nothing on Core.Errors except the one injected interpreter panic; no listener is closed while a cyclical message is unreleased or a non-cyclical input still holds a message; every message created (pool or input) is released exactly once; the output holds no duplicate and only derivable values; without cancellation/panic/early stop the output equals the least fixed point of the successor relation over the inputs (computed independently in the harness).",
         "level_note": "bounds: 2 members (4 threads), 0..1 initial messages per member (solver-chosen), 1 forwarding hop, non-preemptive schedules (budget 0) in quick; budget 1 and 3 members in thorough. The message plumbing (Inc before enqueue, Dec on Done) is mirrored by the harness from pipeline.createWorker's MsgFunc, not executed from it; mediums and the interpreter are outside. B21b: 2 (3) messages, 1-2 processing goroutines under the engine's cooperative schedule; an error reported by the worker cancels the request (what Pipeline.Recv/Close do). B21c: 2 members (B joins last = leader), 0..1 initial message per member (A: v0; B: v0 or v1), successor graphs chain v0>v1>v2>v3, ring v0>v1>v2>v0 (terminates by deduplication only), fan v0>{v1,v2}>v3; ChunkSize 1-2, NumProcs 1-2, buffer capacity 1-2; cancel-at-event and hold-at-event range over 0..14 (chain; every event of every run, a run has <= 14) in quick, 0..16 on ring/fan in thorough; panic at call 1..8; consumer stops after 1..3 messages. Goroutines run under the engine's deterministic cooperative scheduler (run until blocked, every select is a round-robin yield point, oldest runnable first); the held goroutine is released by the youngest goroutine after 40 yields; thorough additionally forks the first 4 selects that have several ready cases (vt.SchedChoices). This is ONE canonical interleaving per choice vector (plus the forked selects), not all interleavings - the schedule-exhaustive part of C21 is B21 on the teardown kernel. Clean-path models are re-run natively (real goroutines; hold = 20 ms sleep).",
         "assumptions": _SCHED_ASSUME,
@@ -66,8 +67,9 @@ SPEC = {
     },
     "C22": {
         "jobs": c22,
+        "technique": "bounded symbolic execution of go/ssa into SMT (z3) with thread schedules as forked solver decision variables (context-bounded: preemption budget over verifhook / atomic-operation scheduling points); counterexample schedules replayed on the compiled code through the hooks or by stress",
         "level_text": "bounded exploration of symbolic schedules of the real mpmc.Queue code: senders and receivers run as threads of the symbolic executor, the thread to run at each scheduling point is a forked solver variable, every schedule within the preemption bound is covered; obligations: every received value was sent, none is delivered twice, per-sender FIFO for a single consumer, Close semantics, and no thread is left parked for ever (lost wake-up). Counterexample schedules are replayed on the real code through the verifhook points (build tag verif).",
-        "level_note": "bounds: capacity 2, no growth; 2 senders + 2 receivers with <= 1 (quick) / 2 preemptions; 1+1 threads with 3 items and <= 2/4 preemptions; Close with 1+1 threads; 3+3 threads on a full queue with 0/1 preemptions. This is context-bounded schedule enumeration driven by solver decision variables, not the single-query Lal-Reps encoding sketched in DESIGN (not built). mpsc.Accumulator: see the C22 mpsc jobs when registered.",
+        "level_note": "bounds: capacity 2, no growth; 2 senders + 2 receivers with <= 1 (quick) / 2 preemptions; 1+1 threads with 3 items and <= 2/4 preemptions; Close with 1+1 threads; 3+3 threads on a full queue, non-preemptive schedules (one preemption exceeds 400 000 schedules: not claimed). This is context-bounded schedule enumeration driven by solver decision variables, not the single-query Lal-Reps encoding sketched in DESIGN (not built). mpsc.Accumulator: see the C22 mpsc jobs when registered.",
         "assumptions": _SCHED_ASSUME,
         "outside": ["extend/Grow under concurrency", "more than 2 preemptions", "weak memory effects below the Go memory model's sequentially consistent atomics"],
     },
